@@ -9,24 +9,24 @@ FUNCS = ['soupsieve.css_parser.css_unescape', 'css_parser.RE_CSS_ESC / RE_CSS_ST
 
 CONDS = [
     Cond('unescape_total_ok', 'css_unescape(s) / css_unescape(s, True) return a string for every s',
-         'len(s) <= 3 quick / 4 thorough, all of Unicode', timeout={'quick': 100, 'thorough': 1800}),
+         'len(s) <= 3 quick / 4 thorough, all of Unicode', timeout={'quick': 100, 'thorough': 900}),
     Cond('unescape_hex_ok', 'every hex escape of 1..6 digits (values 0..0xFFFFFF) followed by any character decodes; 0 and '
          '> U+10FFFF give U+FFFD', 'h symbolic over hex digits (both cases), one trailing symbolic character',
-         timeout={'quick': 100, 'thorough': 1200}),
+         timeout={'quick': 100, 'thorough': 600}),
     Cond('unescape_after_hex_ok', 'text following a hex escape (spaces, "/", "*", letters, backslashes) never breaks decoding',
-         'len <= 5 over "/ * a space backslash"', timeout={'quick': 100, 'thorough': 1200}),
+         'len <= 5 over "/ * a space backslash"', timeout={'quick': 100, 'thorough': 600}),
     Cond('compile_slot_ok', 'PRE + s + POST through the real parser: compiled selector, SelectorSyntaxError or '
          'NotImplementedError, nothing else',
          '34 templates (attribute, string, comment, pseudo-class, An+B, :lang, :dir, combinators, namespaces, at-rule, '
          'pseudo-element, custom) with a symbolic slot s, len <= 2 quick / 3 thorough, all of Unicode: tokenising symbolic '
          'text is the slow path, this condition is time-boxed counterexample search',
-         timeout={'quick': 110, 'thorough': 1800}, parts={'quick': 9, 'thorough': 16}),
+         timeout={'quick': 110, 'thorough': 900}, parts={'quick': 9, 'thorough': 16}),
     Cond('compile_escape_ok', 'a hex escape of any value (0..0xFFFFFF) in identifier, id, quoted/unquoted attribute value, '
          ':-soup-contains and :lang argument position compiles or raises a documented error',
-         '8 templates x symbolic hex digits (1..6)', timeout={'quick': 110, 'thorough': 1800}),
+         '8 templates x symbolic hex digits (1..6)', timeout={'quick': 110, 'thorough': 900}),
     Cond('custom_map_ok', 'custom maps with symbolic names and definitions (second entry refers to the first): documented '
          'errors only; KeyError only when two names differ only in case',
-         'len(name), len(definition) <= 2, all of Unicode; 5 using selectors', timeout={'quick': 110, 'thorough': 1800}),
+         'len(name), len(definition) <= 2, all of Unicode; 5 using selectors', timeout={'quick': 110, 'thorough': 900}),
     Cond('custom_cycles_ok', 'self-referential, mutually recursive, case-colliding and malformed custom maps',
          '12 maps x 5 using selectors', timeout={'quick': 60, 'thorough': 300}),
 ]
